@@ -214,7 +214,23 @@ func (sqlite *SQLiteDB) SaveProofs(proofs cashu.Proofs) error {
 	return nil
 }
 
+// sqlite has a limit on the number of variables in a query
+// so lists of Ys longer than this are looked up in batches
+const maxQueryVariables = 10000
+
 func (sqlite *SQLiteDB) GetProofsUsed(Ys []string) ([]storage.DBProof, error) {
+	if len(Ys) > maxQueryVariables {
+		proofs, err := sqlite.GetProofsUsed(Ys[:maxQueryVariables])
+		if err != nil {
+			return nil, err
+		}
+		rest, err := sqlite.GetProofsUsed(Ys[maxQueryVariables:])
+		if err != nil {
+			return nil, err
+		}
+		return append(proofs, rest...), nil
+	}
+
 	proofs := []storage.DBProof{}
 	if len(Ys) == 0 {
 		return proofs, nil
@@ -290,6 +306,18 @@ func (sqlite *SQLiteDB) AddPendingProofs(proofs cashu.Proofs, quoteId string) er
 }
 
 func (sqlite *SQLiteDB) GetPendingProofs(Ys []string) ([]storage.DBProof, error) {
+	if len(Ys) > maxQueryVariables {
+		proofs, err := sqlite.GetPendingProofs(Ys[:maxQueryVariables])
+		if err != nil {
+			return nil, err
+		}
+		rest, err := sqlite.GetPendingProofs(Ys[maxQueryVariables:])
+		if err != nil {
+			return nil, err
+		}
+		return append(proofs, rest...), nil
+	}
+
 	proofs := []storage.DBProof{}
 	if len(Ys) == 0 {
 		return proofs, nil
